@@ -1328,3 +1328,214 @@ stubstr_bad! {
     stub_str_bad_index_dn_4_1: false, [4, 1];
     stub_str_bad_index_up_3_2: true, [3, 2];
 }
+
+// ------------------------------------------------------------------------------------------------ typed entry points (provided methods of BumpAllocatorTypedScope / MutBumpAllocatorTypedScope)
+use crate::traits::{BumpAllocatorTypedScope, MutBumpAllocatorTypedScope};
+
+/// what an entry point produced: address, size in bytes, alignment of the element type
+pub(crate) struct Got {
+    addr: usize,
+    size: usize,
+    align: usize,
+}
+
+/// The provided methods of `BumpAllocatorTypedScope` are the implementation behind every `alloc*` / `try_alloc*`
+/// method (the inherent methods of `Bump` / `BumpScope` forward to them).  Against the allocator contract: each
+/// returns a live block of the right size and alignment that holds the value(s) (checked inside `f`), hands out at
+/// least that many bytes, and a refused request returns an error (C17 / C01 / C07).
+pub(crate) fn ob_stub_scope<const UP: bool>(used: usize, refused: bool, f: impl FnOnce(&StubBump<UP>) -> Option<Got>) {
+    let stub = StubBump::<UP>::new_at(used);
+    stub.refuse.set(refused);
+    let r = f(&stub);
+    stub.refuse.set(false);
+    let served = r.is_some();
+    match r {
+        Some(g) => {
+            kani::assert(!refused || g.size == 0, "C07.entry_point.refused_request_is_an_error");
+            kani::assert(al(g.addr, g.align), "C01.entry_point.block_aligned");
+            kani::assert(g.size == 0 || stub.owns(g.addr, g.size), "C01.entry_point.block_inside_owned_memory");
+            kani::assert(stub.used() >= used + g.size, "C01.entry_point.block_disjoint_from_earlier_blocks");
+        }
+        None => {
+            kani::assert(stub.used() >= used, "C07.entry_point.error_keeps_earlier_blocks");
+        }
+    }
+    kani::cover!(served != refused, "served-or-refused");
+}
+
+fn got<T>(p: *const T, n: usize) -> Option<Got> {
+    Some(Got { addr: p as usize, size: n * core::mem::size_of::<T>(), align: core::mem::align_of::<T>() })
+}
+
+fn e_alloc<const UP: bool>(s: &StubBump<UP>) -> Option<Got> {
+    let x: u32 = kani::any();
+    let b = s.try_alloc(x).ok()?;
+    kani::assert(*b == x, "C17.try_alloc.value_stored");
+    got(BumpBox::into_raw(b).as_ptr(), 1)
+}
+fn e_alloc_with<const UP: bool>(s: &StubBump<UP>) -> Option<Got> {
+    let x: u64 = kani::any();
+    let b = s.try_alloc_with(|| x).ok()?;
+    kani::assert(*b == x, "C17.try_alloc_with.value_stored");
+    got(BumpBox::into_raw(b).as_ptr(), 1)
+}
+fn e_alloc_default<const UP: bool>(s: &StubBump<UP>) -> Option<Got> {
+    let b = s.try_alloc_default::<u32>().ok()?;
+    kani::assert(*b == 0, "C17.try_alloc_default.value_stored");
+    got(BumpBox::into_raw(b).as_ptr(), 1)
+}
+fn e_alloc_uninit<const UP: bool>(s: &StubBump<UP>) -> Option<Got> {
+    let b = s.try_alloc_uninit::<u64>().ok()?;
+    let x: u64 = kani::any();
+    let b = b.init(x);
+    kani::assert(*b == x, "C17.try_alloc_uninit.init_stores");
+    got(BumpBox::into_raw(b).as_ptr(), 1)
+}
+fn e_slice_copy<const UP: bool>(s: &StubBump<UP>) -> Option<Got> {
+    let src: [u16; 3] = kani::any();
+    let b = s.try_alloc_slice_copy(&src).ok()?;
+    kani::assert(b.len() == 3 && b[0] == src[0] && b[1] == src[1] && b[2] == src[2], "C17.try_alloc_slice_copy.contents");
+    got(BumpBox::into_raw(b).as_ptr() as *const u16, 3)
+}
+fn e_slice_clone<const UP: bool>(s: &StubBump<UP>) -> Option<Got> {
+    let src: [u32; 2] = kani::any();
+    let b = s.try_alloc_slice_clone(&src).ok()?;
+    kani::assert(b.len() == 2 && b[0] == src[0] && b[1] == src[1], "C17.try_alloc_slice_clone.contents");
+    got(BumpBox::into_raw(b).as_ptr() as *const u32, 2)
+}
+fn e_slice_fill<const UP: bool>(s: &StubBump<UP>) -> Option<Got> {
+    let x: u16 = kani::any();
+    let n: usize = kani::any();
+    kani::assume(n <= 4);
+    let b = s.try_alloc_slice_fill(n, x).ok()?;
+    let j: usize = kani::any();
+    kani::assume(j < n);
+    kani::assert(b.len() == n && (n == 0 || b[j] == x), "C17.try_alloc_slice_fill.contents");
+    got(BumpBox::into_raw(b).as_ptr() as *const u16, n)
+}
+fn e_slice_fill_with<const UP: bool>(s: &StubBump<UP>) -> Option<Got> {
+    let x: u16 = kani::any();
+    let mut k = 0u16;
+    let b = s
+        .try_alloc_slice_fill_with(3, || {
+            k += 1;
+            x.wrapping_add(k)
+        })
+        .ok()?;
+    kani::assert(b.len() == 3 && b[0] == x.wrapping_add(1) && b[1] == x.wrapping_add(2) && b[2] == x.wrapping_add(3), "C17.try_alloc_slice_fill_with.called_once_per_element_in_order");
+    got(BumpBox::into_raw(b).as_ptr() as *const u16, 3)
+}
+fn e_slice_len_overflow<const UP: bool>(s: &StubBump<UP>) -> Option<Got> {
+    // a length whose byte size overflows is an error, never a wrap
+    let n: usize = kani::any();
+    kani::assume(n > isize::MAX as usize / 4);
+    let r = s.try_alloc_uninit_slice::<u32>(n);
+    kani::assert(r.is_err(), "C07.try_alloc_uninit_slice.overflowing_length_is_an_error");
+    None
+}
+fn e_uninit_slice<const UP: bool>(s: &StubBump<UP>) -> Option<Got> {
+    let n: usize = kani::any();
+    kani::assume(n <= 5);
+    let b = s.try_alloc_uninit_slice::<u32>(n).ok()?;
+    kani::assert(b.len() == n, "C17.try_alloc_uninit_slice.length");
+    got(BumpBox::into_raw(b).as_ptr() as *const u32, n)
+}
+fn e_slice_move<const UP: bool>(s: &StubBump<UP>) -> Option<Got> {
+    unsafe { DROPS = [0; super::h_coll::CAP] };
+    let r = s.try_alloc_slice_move([Tok(0), Tok(1), Tok(2)]);
+    match r {
+        Ok(b) => {
+            kani::assert(unsafe { DROPS[0] == 0 && DROPS[1] == 0 && DROPS[2] == 0 } && b.len() == 3 && b[0].0 == 0 && b[2].0 == 2, "C06.try_alloc_slice_move.values_moved_not_dropped");
+            let p = b.as_ptr();
+            drop(b);
+            kani::assert(unsafe { DROPS[0] == 1 && DROPS[1] == 1 && DROPS[2] == 1 }, "C06.try_alloc_slice_move.box_drops_each_once");
+            got(p, 3)
+        }
+        Err(_) => {
+            kani::assert(unsafe { DROPS[0] == 1 && DROPS[1] == 1 && DROPS[2] == 1 }, "C06.try_alloc_slice_move.refused_call_drops_the_values_once");
+            None
+        }
+    }
+}
+fn e_str<const UP: bool>(s: &StubBump<UP>) -> Option<Got> {
+    let t = sym_text([2, 3]);
+    let b = s.try_alloc_str(t.as_str()).ok()?;
+    kani::assert(same(b.as_bytes(), t.as_str().as_bytes()), "C17.try_alloc_str.contents");
+    let p = b.as_ptr();
+    core::mem::forget(b);
+    got(p, 5)
+}
+fn e_iter<const UP: bool>(s: &StubBump<UP>) -> Option<Got> {
+    let src: [u16; 3] = kani::any();
+    let b = s.try_alloc_iter(src).ok()?;
+    kani::assert(b.len() == 3 && b[0] == src[0] && b[1] == src[1] && b[2] == src[2], "C17.try_alloc_iter.contents_in_order");
+    got(BumpBox::into_raw(b).as_ptr() as *const u16, 3)
+}
+fn e_iter_exact<const UP: bool>(s: &StubBump<UP>) -> Option<Got> {
+    let src: [u16; 3] = kani::any();
+    let b = s.try_alloc_iter_exact(src).ok()?;
+    kani::assert(b.len() == 3 && b[0] == src[0] && b[1] == src[1] && b[2] == src[2], "C17.try_alloc_iter_exact.contents_in_order");
+    got(BumpBox::into_raw(b).as_ptr() as *const u16, 3)
+}
+fn e_cstr<const UP: bool>(s: &StubBump<UP>) -> Option<Got> {
+    let c = s.try_alloc_cstr(core::ffi::CStr::from_bytes_with_nul(b"ab\0").unwrap()).ok()?;
+    let bytes = c.to_bytes_with_nul();
+    kani::assert(bytes.len() == 3 && bytes[0] == b'a' && bytes[1] == b'b' && bytes[2] == 0, "C17.try_alloc_cstr.contents_with_terminator");
+    got(bytes.as_ptr(), 3)
+}
+fn e_cstr_from_str<const UP: bool>(s: &StubBump<UP>) -> Option<Got> {
+    // an interior nul ends the C string
+    let c = s.try_alloc_cstr_from_str("ab\0c").ok()?;
+    let bytes = c.to_bytes_with_nul();
+    kani::assert(bytes.len() == 3 && bytes[0] == b'a' && bytes[1] == b'b' && bytes[2] == 0, "C17.try_alloc_cstr_from_str.stops_at_the_first_nul");
+    got(bytes.as_ptr(), 3)
+}
+
+macro_rules! stubscope {
+    ($($name:ident: $up:expr, $used:expr, $refused:expr, $op:ident;)*) => {$(
+        #[kani::proof]
+        #[kani::unwind(10)]
+        pub(crate) fn $name() {
+            ob_stub_scope::<$up>($used, $refused, $op::<$up>);
+        }
+    )*};
+}
+stubscope! {
+    stub_scope_alloc_up: true, 1, false, e_alloc;
+    stub_scope_alloc_dn: false, 3, false, e_alloc;
+    stub_scope_alloc_refused_up: true, 0, true, e_alloc;
+    stub_scope_alloc_with_dn: false, 1, false, e_alloc_with;
+    stub_scope_alloc_with_refused_up: true, 2, true, e_alloc_with;
+    stub_scope_alloc_default_up: true, 5, false, e_alloc_default;
+    stub_scope_alloc_uninit_dn: false, 5, false, e_alloc_uninit;
+    stub_scope_slice_copy_up: true, 1, false, e_slice_copy;
+    stub_scope_slice_copy_dn: false, 1, false, e_slice_copy;
+    stub_scope_slice_copy_refused_dn: false, 0, true, e_slice_copy;
+    stub_scope_slice_clone_up: true, 3, false, e_slice_clone;
+    stub_scope_slice_fill_up: true, 1, false, e_slice_fill;
+    stub_scope_slice_fill_dn: false, 3, false, e_slice_fill;
+    stub_scope_slice_fill_with_up: true, 0, false, e_slice_fill_with;
+    stub_scope_slice_fill_with_dn: false, 1, false, e_slice_fill_with;
+    stub_scope_uninit_slice_up: true, 2, false, e_uninit_slice;
+    stub_scope_uninit_slice_dn: false, 1, false, e_uninit_slice;
+    stub_scope_slice_move_up: true, 1, false, e_slice_move;
+    stub_scope_slice_move_dn: false, 0, false, e_slice_move;
+    stub_scope_slice_move_refused_up: true, 0, true, e_slice_move;
+    stub_scope_str_up: true, 1, false, e_str;
+    stub_scope_str_dn: false, 2, false, e_str;
+    stub_scope_iter_up: true, 1, false, e_iter;
+    stub_scope_iter_dn: false, 1, false, e_iter;
+    stub_scope_iter_refused_dn: false, 0, true, e_iter;
+    stub_scope_iter_exact_up: true, 3, false, e_iter_exact;
+    stub_scope_iter_exact_dn: false, 0, false, e_iter_exact;
+    stub_scope_cstr_up: true, 1, false, e_cstr;
+    stub_scope_cstr_from_str_dn: false, 1, false, e_cstr_from_str;
+}
+
+#[kani::proof]
+#[kani::unwind(4)]
+pub(crate) fn stub_scope_slice_len_overflow_up() {
+    let stub = StubBump::<true>::new();
+    let _ = e_slice_len_overflow(&stub);
+    kani::cover!(true, "overflowing-length-rejected");
+}
